@@ -388,6 +388,10 @@ pub struct Call {
     pub arg_addr: usize,
     /// For cas: the address given as `current`.
     pub exp_addr: usize,
+    /// For cas with `current` given in a form that keeps the value alive (`&T`, `&Guard`,
+    /// `Guard`): the identity of that value. The comparison is then one of objects, not merely of
+    /// addresses (the address of a live value cannot belong to any other object).
+    pub exp_uid: Option<u32>,
     /// Value returned.
     pub ret: u32,
     pub ret_addr: usize,
